@@ -825,7 +825,7 @@ func evalUpdateExpression(node *UpdateExpression, env *Environment) Object {
 		actions = append(actions, &ActionExpression{
 			Token: action.Token,
 			Left:  action.Left,
-			Right: &evaluatedExpression{Expression: action.Right, value: val},
+			Right: &evaluatedExpression{Expression: action.Right, value: snapshotObject(val)},
 		})
 	}
 
@@ -839,6 +839,25 @@ func evalUpdateExpression(node *UpdateExpression, env *Environment) Object {
 	env.Compact()
 
 	return UNDEFINED
+}
+
+// snapshotObject returns a copy of a value read from the item. The objects of the environment are
+// changed in place by the actions (ADD, DELETE, SET on a path), so without the copy a right-hand
+// side that names an attribute would follow the changes a later action of the same expression
+// makes to that attribute
+func snapshotObject(obj Object) Object {
+	if obj == nil || isError(obj) || isUndefined(obj) {
+		return obj
+	}
+
+	item := obj.ToDynamoDB()
+
+	cp, err := MapToObject(&item)
+	if err != nil {
+		return obj
+	}
+
+	return cp
 }
 
 func evalActionSet(node *ActionExpression, env *Environment) Object {
